@@ -291,8 +291,22 @@ SmallerRes(x, y) == LET c == Cmp(x, y) IN IF c = "na" THEN Undef(x, y) ELSE VBoo
 SignRes(x)       == IF ~IsKnown(x) \/ IsNaN(x) THEN Undef(x, x) ELSE VSign(SignV(x))
 \* the result of Min/Max is the chosen operand as the receiver represents it; equal views: either
 \* (they are the same value up to the sign of zero)
-MinRes(x, y) == LET c == Cmp(x, y) IN IF c = "na" THEN Undef(x, y) ELSE IF c = "gt" THEN y ELSE x
-MaxRes(x, y) == LET c == Cmp(x, y) IN IF c = "na" THEN Undef(x, y) ELSE IF c = "lt" THEN y ELSE x
+TieOf(x) == IF IsZeroV(x) THEN VZero ELSE x
+MinRes(x, y) == LET c == Cmp(x, y) IN
+                IF c = "na" THEN Undef(x, y) ELSE IF c = "gt" THEN y ELSE IF c = "eq" THEN TieOf(x) ELSE x
+MaxRes(x, y) == LET c == Cmp(x, y) IN
+                IF c = "na" THEN Undef(x, y) ELSE IF c = "lt" THEN y ELSE IF c = "eq" THEN TieOf(x) ELSE x
+
+(* ------------------------------------- Set, Neg, Abs: exact on every receiver *)
+\* v: the operand's own value, x: its view in the receiver's type R
+\* |v| of an operand the integer receiver cannot represent: convert-then-abs and abs-then-convert differ
+UnaryExact(op, R, v, x) ==
+  IF x.k = "idef" THEN IDef
+  ELSE IF x.k = "opq" THEN Opq
+  ELSE IF op = "Set" THEN x
+  ELSE IF Cls(R) = "int" THEN (IF op = "Neg" THEN IntNeg(R, x) ELSE IF x # v THEN AnyRes ELSE IntAbs(R, x))
+  ELSE IF op = "Neg" THEN (IF IsZeroV(x) THEN VZero ELSE NegV(x))
+  ELSE IF IsNaN(x) THEN AnyRes ELSE IF IsZeroV(x) THEN VTok("pzero") ELSE AbsV(x)
 
 (* ----------------------- IEEE result class of floating-point operations *)
 \* class of a float view: "nan" "pinf" "ninf" "zero" "pos" "neg"
